@@ -571,6 +571,8 @@ func runC20MinusOne(c *Ctx) {
 			case minusOneReviewed[FuncName(rootFunc(f))] != "":
 				used[FuncName(rootFunc(f))] = true
 				c.Except(s.in.Pos(), fn, construct, minusOneReviewed[FuncName(rootFunc(f))])
+			case inheritedMinusOneReason(c, rootFunc(f), used) != "":
+				c.Except(s.in.Pos(), fn, construct, inheritedMinusOneReason(c, rootFunc(f), used))
 			default:
 				c.Bad(s.in.Pos(), fn, construct, fmt.Sprintf("nothing establishes that (%s) is at least %d where it is used as an index: when it is smaller (an empty or one-element list, a zero count from the input) the index is negative and the access panics", trunc(xs), s.k))
 			}
@@ -3375,4 +3377,28 @@ func convertedFromData(p *Program, nt *types.Named) bool {
 	}
 	convertedFromDataMemo[nt] = res
 	return res
+}
+
+// inheritedMinusOneReason: a helper introduced since the baseline all of whose
+// call sites lie in reviewed functions carries the code those reviews were
+// written for; it inherits (one of) their reasons.
+func inheritedMinusOneReason(c *Ctx, h *ssa.Function, used map[string]bool) string {
+	if !isNewHelper(h) {
+		return ""
+	}
+	sites := c.P.callSitesOf(h)
+	if len(sites) == 0 {
+		return ""
+	}
+	reason := ""
+	for _, s := range sites {
+		o := FuncName(rootFunc(s.Parent()))
+		why := minusOneReviewed[o]
+		if why == "" {
+			return ""
+		}
+		used[o] = true
+		reason = "helper split off " + o + ": " + why
+	}
+	return reason
 }
